@@ -70,6 +70,51 @@ func (m *MonC14) OnReq(w *World, r *Req) {
 	}
 }
 
+// OnQuiescent checks, for package scenarios, that the in-order concatenation of
+// the slices of every template phase equals the rendered phase (the generator
+// knows what every admissible spec renders to).
+func (m *MonC14) OnQuiescent(w *World, epoch int) {
+	g := pkgGen(w)
+	if g == nil {
+		return
+	}
+	for _, key := range g.Keys {
+		pkg, ok := w.Mgmt.Objs[key]
+		if !ok || store.Deleting(pkg) {
+			continue
+		}
+		if b, _ := store.Get(pkg, "spec", "paused").(bool); b {
+			continue
+		}
+		adm, _, img := admissibleFor(w, pkg)
+		if !adm {
+			continue
+		}
+		odKind := "ObjectDeployment"
+		if g.Cluster {
+			odKind = "ClusterObjectDeployment"
+		}
+		od := w.Mgmt.Objs[store.Key{Group: PKOGroup, Kind: odKind, Namespace: key.Namespace, Name: key.Name}]
+		if od == nil {
+			continue
+		}
+		m.touch()
+		want := img.ExpectedObjects(key.Name, pkg["spec"].(map[string]any))
+		got := templateObjects(w, od)
+		if !reflect.DeepEqual(want, got) {
+			w.Report(Violation{Property: "C14", Rule: "concat-differs", Sig: store.Annotations(pkg)["packages.package-operator.run/chunking-strategy"], Msg: fmt.Sprintf("at quiescence the slices of %s concatenate to %v, the rendered package lists %v", key, got, want)})
+		}
+		if len(store.Get(od, "spec", "template", "spec", "phases").([]any)) > 0 {
+			for _, px := range store.Get(od, "spec", "template", "spec", "phases").([]any) {
+				pm, _ := px.(map[string]any)
+				if sl, _ := pm["slices"].([]any); len(sl) > 0 {
+					w.Stats.Probe("c14-template-sliced")
+				}
+			}
+		}
+	}
+}
+
 // writeOrder is, per acting owner (ObjectSet / ObjectSetPhase), the sequence of
 // delete events it caused on managed objects, at phase granularity.
 // Interleaving between different owners is a scheduling matter and is not
@@ -208,7 +253,15 @@ func planC14(w *World, spec RunSpec) {
 		}
 		return
 	}
-	if spec.Index%4 == 3 {
+	if spec.Index%8 == 5 {
+		// packages: chunking strategies, slice names, slice garbage collection
+		s := w.Scn
+		w.setupCommon(0)
+		w.Cfg.Packages = true
+		w.drawFaultMix("err-before", "lost-response", "crash", "compaction", "duplicate", "pull-error")
+		w.Cfg.Ndist = 120 + s.Intn(500, "ndist")
+		w.Scenario = GenPKG(w, 5)
+	} else if spec.Index%4 == 3 {
 		s := w.Scn
 		w.setupCommon(6)
 		w.drawFaultMix("err-before", "lost-response", "crash", "compaction", "duplicate")
